@@ -419,8 +419,17 @@ impl IncrementalEngine {
         // Evaluate each fact type using per-fact evaluation
         for fact_type in fact_types {
             let facts_of_type = self.working_memory.get_by_type(&fact_type);
+            // Only rules that depend on this fact type are matched against its facts, as in
+            // propagate_changes_for_type: a rule about another type would otherwise be
+            // evaluated on a fact none of whose fields it mentions, and a negated condition
+            // would then hold vacuously and fire the rule for an unrelated fact.
+            let affected_rules = self.dependencies.get_affected_rules(&fact_type);
 
-            for rule in self.rules.iter() {
+            for (rule_idx, rule) in self.rules.iter().enumerate() {
+                if !affected_rules.contains(&rule_idx) {
+                    continue;
+                }
+
                 // Skip if rule has no-loop and already fired
                 if rule.no_loop && self.agenda.has_fired(&rule.name) {
                     continue;
